@@ -24,6 +24,8 @@ package signature_proposal_fsm
 //@   ensures[C05.shape] response == nil && (outEvent == "" || outEvent == eventSetValidationCanceledByTimeout)
 //@   ensures[C05.late] outEvent == eventSetValidationCanceledByTimeout ==> err == nil && sigViewsSame(m) && isPartReq(args) && old(partReq(args).ParticipantId in sigQ(m.payload)) && old(lateReply(m, args))
 //@   ensures[C05.latecancels] err == nil && isPartReq(args) && old(partReq(args).ParticipantId in sigQ(m.payload)) && old(lateReply(m, args)) ==> outEvent == eventSetValidationCanceledByTimeout
+// a well-formed reply of an awaited participant (confirm or decline) is never refused for another reason
+//@   erroronly[C05.accepts] Validate | !isPartReq(args) || !old(partReq(args).ParticipantId in sigQ(m.payload)) || old(sigQ(m.payload)[partReq(args).ParticipantId].Status) != internal.SigConfirmationAwaitConfirmation || (inEvent != EventConfirmSignatureProposal && inEvent != EventDeclineProposal)
 //@   ensures[C05.once,C10.once] err == nil && outEvent == "" ==> isPartReq(args) && old(partReq(args).ParticipantId in sigQ(m.payload)) && !old(lateReply(m, args)) && old(sigQ(m.payload)[partReq(args).ParticipantId].Status) == internal.SigConfirmationAwaitConfirmation && ((inEvent == EventConfirmSignatureProposal && sigQ(m.payload)[partReq(args).ParticipantId].Status == internal.SigConfirmationConfirmed) || (inEvent == EventDeclineProposal && sigQ(m.payload)[partReq(args).ParticipantId].Status == internal.SigConfirmationDeclined))
 //@   ensures[C05.frame,C10.frame] err == nil ==> (forall q *internal.SignatureProposalParticipant :: q != old(sigQ(m.payload)[partReq(args).ParticipantId]) ==> q.Status == old(q.Status)) && sigQ(m.payload) == old(sigQ(m.payload)) && dom(sigQ(m.payload)) == old(dom(sigQ(m.payload))) && vals(sigQ(m.payload)) == old(vals(sigQ(m.payload))) && unchanged("*internal.DumpedMachineStatePayload", "map[string]int", "map[string]ed25519.PublicKey", "[]byte", internal.SignatureProposalParticipant.Username, internal.SignatureProposalParticipant.PubKey, internal.SignatureProposalParticipant.DkgPubKey, internal.SignatureProposalParticipant.Threshold) && sgp(m).ExpiresAt == old(sgp(m).ExpiresAt)
 
